@@ -302,6 +302,7 @@ def double_pipe_rule(ctx, crate, rule):
     if not ctx.require(b is not None, rule, "%s|anchor" % rule, "parsers::parser_line::parse_line not found"):
         return
     sites = []
+    chosen = []
     for bb, t, c in b.calls():
         if last_seg(c) == "push" and "Vec" in c:
             a = b.call_args(bb)
@@ -310,11 +311,36 @@ def double_pipe_rule(ctx, crate, rule):
                 if v[0] == "agg" and v[1] == "tuple" and len(v[2]) == 2:
                     lits = [mir.const_str(x) for x in mir.subexprs(v[2][1]) if mir.const_str(x) is not None]
                     tags = [mir.const_str(x) for x in mir.subexprs(v[2][0]) if mir.const_str(x) is not None]
+                    if any(x[0] == "call" and last_seg(x[1]) == "new" and "String" in x[1] for x in mir.subexprs(v[2][0])):
+                        tags.append("")                  # String::new()
                     if "|" in lits and "" in tags:
                         sites.append(bb)
-    if not ctx.require(len(sites) >= 2, rule, "%s|%s|sites" % (rule, b.path),
-                       "expected the places where parse_line emits an untagged `|` token, found %d" % len(sites), b.path):
+                    elif "" in tags:
+                        # the operator text is chosen between "|" and "||" first and pushed once
+                        alts = flow.const_alternatives(b, strip_sites(a[1])[2][1]) if strip_sites(a[1])[0] == "agg" else None
+                        if alts is None:
+                            for x in mir.subexprs(strip_sites(a[1])):
+                                if x[0] in ("var", "tmp"):
+                                    al = flow.const_alternatives(b, x)
+                                    if al and "|" in al:
+                                        alts = al
+                        if alts and "|" in alts and "||" in alts:
+                            chosen.append(bb)
+    if not ctx.require(len(sites) + len(chosen) >= 2, rule, "%s|%s|sites" % (rule, b.path),
+                       "expected the places where parse_line emits an untagged `|` token, found %d" % (len(sites) + len(chosen)),
+                       b.path):
         return
+    for n_, bb in enumerate(sorted(chosen)):
+        # the choice between the two literals depends on a comparison with the next character
+        ok = False
+        for x in sorted(b.reachable):
+            es = b.switch_edges(x)
+            if len(es) >= 2 and b.dominates(x, bb) and x != bb:
+                e = b.expand_vars(strip_sites(es[0][1]))
+                if any(mir.const_char(sub) == "|" for sub in mir.subexprs(e)):
+                    ok = True
+        ctx.ob(rule, b.path, "the operator text (`|` or `||`) is chosen by a comparison of the next character with `|`", ok,
+               key="%s|%s|pipe-choice#%d" % (rule, b.path, n_), where=b.loc(bb), crate=crate.kind)
     k = 0
     for bb in sorted(sites):
         # a look-ahead at the next character (its bounds guard `i + 1 < count`, or the comparison of nth(i + 1) with
